@@ -1,5 +1,5 @@
 """C06 — scripts cannot crash the host; the VM stays usable (E3a panic containment, E3b stack reset)."""
-from . import e3a, e3b, e3c, e3d, e3e, e3f
+from . import e3a, e3b, e3c, e3d, e3e, e3f, e3g, e3h
 
 CRATES = {"gluon_vm", "gluon", "gluon_c_api", "gluon_base", "gluon_repl", "gluon_parser"}
 
@@ -22,4 +22,7 @@ def run(fb, rep, tier, cfg):
     e3d.run(fb, rep)
     e3e.run(fb, rep)
     e3f.run(fb, rep)
+    e3g.run(fb, rep)
+    e3g.script_sized_allocations(fb, rep)
+    e3h.run(fb, rep)
     e3a.run(fb, rep, tier)
